@@ -37,7 +37,7 @@ type Scenario struct {
 	H        []int  `json:"h"`
 }
 
-var strKeys = []string{"a", "100%", "aa", "%v", "ab", "b", "a%sb", "ba", "c", "é", "z", "A", "%d%%", "Z", "0", "zz", "\xff", "日"}
+var strKeys = []string{"a", "100%", "melon", "aa", "%v", "li", "ab", "b", "n", "a%sb", "ba", "kiwi", "c", "é", "z", "A", "%d%%", "Z", "0", "zz", "\xff", "日", "il", "zucchini"}
 
 func genOp(t *rapid.T) Op {
 	k := rapid.SampledFrom([]string{"put", "put", "put", "get", "remove", "remove"}).Draw(t, "k")
